@@ -149,3 +149,19 @@ def fix_post(row, run_body, n):
         out['join_or_top_' + str(i)] = (p.cls == (p.lhs.cls or p.rhs.cls)) or (run_body.calls == 4 * n + 2 and p.cls)
     out['rounds'] = 1 <= run_body.calls and run_body.calls <= 4 * n + 2
     return out
+
+
+def body2_monotone():
+    """the body walk of a 2-phi loop is monotone in the phi classes (what the transfer functions of value_class.py are
+    meant to be): a definitional assumption about the ghost `c13y_body2`, spelled out over the 4 x 4 pairs of states"""
+    out = {}
+    B = (False, True)
+    for i in (0, 1):
+        for a0 in B:
+            for a1 in B:
+                for b0 in B:
+                    for b1 in B:
+                        if (b0 or not a0) and (b1 or not a1):
+                            out['mono_%d_%d%d_%d%d' % (i, a0, a1, b0, b1)] = implies(
+                                ghost_pred('c13y_body2', i, a0, a1), ghost_pred('c13y_body2', i, b0, b1))
+    return out
